@@ -38,12 +38,12 @@ fn push_iter<const K: usize, const ALL_BITS: bool>() {
         vals[i] = if ALL_BITS { kani::any() } else { any_strain() };
         sv.push(vals[i]);
     }
-    assert!(sv.len() == K, "C10 StrainsVec: len counts every push");
+    assert!(sv.len() == K, "C10,C11 StrainsVec: len counts every push");
     let mut it = sv.iter();
     for i in 0..K {
-        assert!(it.len() == K - i, "C10 StrainsVec: iterator announces the remaining length");
+        assert!(it.len() == K - i, "C10,C11 StrainsVec: iterator announces the remaining length");
         let got = it.next();
-        assert!(got.is_some(), "C10 StrainsVec: iterator yields one item per push");
+        assert!(got.is_some(), "C10,C11 StrainsVec: iterator yields one item per push");
         let got = got.unwrap();
         if ALL_BITS {
             // C11: whatever was pushed, a zero-count is never exposed as a float: the item is either
@@ -56,7 +56,7 @@ fn push_iter<const K: usize, const ALL_BITS: bool>() {
             assert!(same(got, model_value(vals[i])), "C10 StrainsVec: iter yields the pushed values in order");
         }
     }
-    assert!(it.next().is_none() && it.len() == 0, "C10 StrainsVec: iterator ends after K items");
+    assert!(it.next().is_none() && it.len() == 0, "C10,C11 StrainsVec: iterator ends after K items");
     kani::cover!(K >= 2 && vals[0] == 0.0 && vals[1] == 0.0, "zero run of length two");
     kani::cover!(K >= 2 && vals[0] > 0.0 && vals[K - 1] == 0.0, "value then zero");
     core::mem::forget(sv);
